@@ -170,12 +170,12 @@ CHECKS = {
              'form / fieldset / radio-group / iframe / bidi document up to 4-5 nodes over six focused template sets (100 k documents quick, '
              '1.1 M thorough); every document with its predicted sets is replayed into soupsieve.select. The partition laws over the '
              'code\'s own results and definition conformance on seeded random documents parsed by html.parser, lxml and html5lib are '
-             'decided by TLC (Trace_C17, one REJECT per failing predicate).',
+             'decided by TLC (Trace_C17, one REJECT per failing predicate). T-StateDefs: the selector texts by which the library defines its state pseudo-classes are extracted from the tree under test, parsed and compiled by the specification\'s own front end (Lexer, ParseSel, Ir) and evaluated by the matcher of Ir.tla; that this equals HtmlState is an invariant of every run.',
         design_ref='§6 C17',
         note='Bounded document size and attribute pools; gated on the definitions the property spells out (default with the documented nested-form '
              '"bail" rule, indeterminate, placeholder-shown, iframe boundary, link=any-link) and the laws; the form-owner reading of :default and '
              'the standard\'s finer reading of :dir() are alternative readings recorded as drift; range law: disjointness only (coverage is C18\'s).',
-        technique='TLA+ definitions + partition-law invariants checked by TLC; enumeration replayed into the code; law-level and definition-level TLC trace validation on parser-built documents'),
+        technique='TLA+ definitions + partition-law invariants checked by TLC; enumeration replayed into the code; law-level and definition-level TLC trace validation on parser-built documents; TLC invariant over code-extracted definition texts (T-StateDefs)'),
     'C06': dict(
         category='model_checking',
         text='Parser.tla models parse_selectors over token kinds with an explicit stack of list frames (forgiving lists, relative lists, pending '
